@@ -1346,3 +1346,34 @@ package rockredis
 //@   requires r != nil && r.wb != nil
 //@   ensures ghost(wbputs, r.wb) == 0 && ghost(wbdels, r.wb) == 0 && ghost(wbver, r.wb) == old(ghost(wbver, r.wb)) + 1
 //@   modifies ghost(wbputs, r.wb), ghost(wbdels, r.wb), ghost(wbver, r.wb), r.isBatching
+
+// ---- PFADD at apply time (C11): the stored sketch is only decoded when it is long enough for its fixed header
+// (type byte + 8-byte cached count) in front of the 8-byte time stamp; anything shorter is errInvalidHLLData,
+// never an index out of range in the apply loop ----
+//@ property C11
+//@ func newHLLItemFromDBBytes(hllType uint8, fkv []byte) (*hllCacheItem, bool, error)
+//@   trusted sketch decoding (third-party codecs); needs the 9-byte fixed header
+//@   requires len(fkv) >= 9
+//@   ensures result2 == nil ==> result0 != nil
+//@ func newHLLItem(init uint8) (*hllCacheItem, error)
+//@   trusted allocates an empty sketch
+//@   ensures result1 == nil ==> result0 != nil
+//@ func (hllItem *hllCacheItem) addCount(hasher hash.Hash64, elems ...[]byte) (bool, bool)
+//@   trusted sketch update
+//@   requires hllItem != nil
+//@ func (hllItem *hllCacheItem) invalidCachedCnt(ts int64)
+//@   trusted sketch bookkeeping
+//@   requires hllItem != nil
+//@ func (c *hllCache) Get(key []byte) (*hllCacheItem, bool)
+//@   trusted cache lookup: a hit is a non-nil item
+//@   requires c != nil
+//@   ensures result1 ==> result0 != nil
+//@ func (c *hllCache) AddToReadCache(key []byte, item *hllCacheItem)
+//@   trusted cache insert
+//@   requires c != nil
+//@ func (c *hllCache) AddDirtyWrite(key []byte, item *hllCacheItem)
+//@   trusted cache insert
+//@   requires c != nil
+//@ func (db *RockDB) PFAdd(ts int64, rawKey []byte, elems ...[]byte) (int64, error)
+//@   requires dbReady(db) && db.hllCache != nil
+//@   modifies *
